@@ -11,6 +11,7 @@ import EaselModel.Generated.RandTables
 import EaselModel.Random.Consts
 import EaselModel.Random.UniPosTerm
 import EaselModel.Random.LcgTerm
+import EaselModel.Random.RollSpec
 /-! # C09 — property theorems (statements + glue only; lemmas live in Random/*.lean)
 
 Every theorem quantifies over all seeds / all stream positions / all states; none is bounded. -/
@@ -465,6 +466,29 @@ theorem roll_terminates_on_stream (r : Rng) (seed : UInt32) (k : Nat) (h : r.OnS
   obtain ⟨k', h1, _, h3⟩ := Rng.onStream_roll seed n fuel r k v r' h hr
   exact ⟨v, r', k', hr, roll_lt _ n fuel v r' hr, h1, h3⟩
 
+/-- **`esl_rnd_Roll` as a total function of the reference stream.**  For every seed, every history `Init(seed)` + `k` draws and every
+    `0 < n < 2^32` there is a FIRST accepted word among the next 19999 outputs `out32 seed k j = temper(x(624+k+j))` of the MT19937
+    reference sequence; the roll returns the rejection map of exactly that word and leaves the generator exactly `i+1` draws
+    further, for every fuel `≥ 19999` — "the unbiased rejection mapping of the raw integers", with no fuel caveat -/
+theorem roll_is_first_accepted_word (r0 : Rng) (hk : r0.kind = .mersenne) (seed : UInt32) (k n : Nat) (hn : 0 < n) (hn' : n < 2 ^ 32) :
+    ∃ i v, i ≤ 19998 ∧ (∀ j, j < i → rollWord n (out32 seed k j) = none) ∧ rollWord n (out32 seed k i) = some v ∧
+      ∀ fuel, 19999 ≤ fuel →
+        ((r0.initWith seed).draws k).2.roll n fuel = some (v, (((r0.initWith seed).draws k).2.draws (i + 1)).2) := by
+  obtain ⟨i, v, hi, hrej, hv⟩ := first_accepted32 seed k n hn hn'
+  have hs := Rng.onStream_draws _ seed 0 (Rng.onStream_initWith r0 hk seed) k
+  rw [Nat.zero_add] at hs
+  exact ⟨i, v, hi, hrej, hv, fun fuel hf => Rng.roll_first n seed v i _ k hs hrej hv fuel (by omega)⟩
+
+/-- the same for `esl_rand64_Roll` on MT19937-64, every seed, every `0 < n < 2^64` -/
+theorem roll64_is_first_accepted_word (seed : UInt64) (k n : Nat) (hn : 0 < n) (hn' : n < 2 ^ 64) :
+    ∃ i v, i ≤ 19998 ∧ (∀ j, j < i → rollWord64 n (out64 seed k j) = none) ∧ rollWord64 n (out64 seed k i) = some v ∧
+      ∀ fuel, 19999 ≤ fuel →
+        ((Rng64.create seed).draws k).2.roll n fuel = some (v, (((Rng64.create seed).draws k).2.draws (i + 1)).2) := by
+  obtain ⟨i, v, hi, hrej, hv⟩ := first_accepted64 seed k n hn hn'
+  have hs := Rng64.onStream_draws _ seed 0 (Rng64.onStream_create seed) k
+  rw [Nat.zero_add] at hs
+  exact ⟨i, v, hi, hrej, hv, fun fuel hf => Rng64.roll_first n seed v i _ k hs hrej hv fuel (by omega)⟩
+
 /-- `esl_rnd_Roll` on the legacy LCG, every state: within `2^31 + 1` draws -/
 theorem roll_terminates_fast (r : Rng) (hk : r.kind = .fast) (n : Nat) (hn : 0 < n) (hn' : n < 2 ^ 32) (fuel : Nat)
     (hf : 2 ^ 31 + 1 ≤ fuel) : ∃ v r', r.roll n fuel = some (v, r') ∧ v < n := by
@@ -493,6 +517,17 @@ theorem uniformPositive_terminates (r0 : Rng) (seed : UInt32) (hs : seed ≠ 0) 
     have hkk := Rng.draws_kind_fast _ k ((Rng.initWith_kind r0 seed).trans hk)
     obtain ⟨x, r', h⟩ := Rng.uniPos_terminates_fast _ hkk fuel (by omega)
     exact ⟨x, r', h, uniformPositive_pos _ fuel x r' h⟩
+
+/-- `esl_rnd_UniformPositive` as a total function of the MT19937 stream of a non-zero seed: it returns the FIRST non-zero one of the next
+    624 outputs (as `x/2^32 ∈ (0,1)`) and leaves the generator exactly that many draws further, for every fuel `≥ 624` -/
+theorem uniformPositive_is_first_nonzero_word (r0 : Rng) (hk : r0.kind = .mersenne) (seed : UInt32) (hs : seed ≠ 0) (k : Nat) :
+    ∃ i, i < 624 ∧ (∀ j, j < i → out32 seed k j = 0) ∧ out32 seed k i ≠ 0 ∧
+      ∀ fuel, 624 ≤ fuel → ((r0.initWith seed).draws k).2.uniformPositive fuel
+          = some (out32 seed k i, (((r0.initWith seed).draws k).2.draws (i + 1)).2) := by
+  obtain ⟨i, hi, hz, hne⟩ := first_nonzero32 seed hs k
+  have hst := Rng.onStream_draws _ seed 0 (Rng.onStream_initWith r0 hk seed) k
+  rw [Nat.zero_add] at hst
+  exact ⟨i, hi, hz, hne, fun fuel hf => Rng.uniPos_first seed i _ k hst hz hne fuel (by omega)⟩
 
 /-! non-vacuity: the hypotheses are satisfiable (`n = 6`, `seed = 42`), and the bound is about a real phenomenon: the all-zero
     table IS a fixed point of the refill (it is only unreachable), so no bound can hold for an arbitrary table content -/
